@@ -17,7 +17,7 @@ class Func(NamedTuple):
     name: str
     body: list
     contracts: list[Contract]
-    node: ast.FunctionDef | astroid.FunctionDef
+    node: ast.FunctionDef | ast.AsyncFunctionDef | astroid.FunctionDef
 
     @property
     def line(self) -> int:
@@ -77,15 +77,15 @@ class Func(NamedTuple):
         return funcs
 
     @classmethod
-    def _get_funcs_ast(cls, target: ast.AST) -> Iterator[ast.FunctionDef]:
+    def _get_funcs_ast(cls, target: ast.AST) -> Iterator[ast.FunctionDef | ast.AsyncFunctionDef]:
         if isinstance(target, ast.Module):
             for stmt in target.body:
                 yield from cls._get_funcs_ast(stmt)
-        elif isinstance(target, ast.FunctionDef):
+        elif isinstance(target, (ast.FunctionDef, ast.AsyncFunctionDef)):
             yield target
         elif isinstance(target, ast.ClassDef):
             for stmt in target.body:
-                if isinstance(stmt, ast.FunctionDef):
+                if isinstance(stmt, (ast.FunctionDef, ast.AsyncFunctionDef)):
                     yield stmt
 
     @classmethod
